@@ -540,6 +540,9 @@ impl Lightningd {
             while let Some(pos) = self.buf.windows(2).position(|w| w == b"\n\n") {
                 let frame: Vec<u8> = self.buf.drain(..pos + 2).collect();
                 if let Ok(v) = serde_json::from_slice::<Value>(&frame[..pos]) {
+                    if v.get("method").and_then(|m| m.as_str()) == Some("log") && std::env::var("SIM_DEBUG").is_ok() {
+                        eprintln!("[plugin {}ms] {}", virtual_ms(), v.get("params").map(|p| p.to_string()).unwrap_or_default());
+                    }
                     if let Some(i) = v.get("id").and_then(|i| i.as_u64()) {
                         if i == id {
                             return Some(v);
@@ -1558,6 +1561,7 @@ impl<'a> Session<'a> {
                 let id = self.tower_id(*t);
                 let before = read_client_db(&self.dir.join("watchtowers_db.sql3"));
                 let log_before = self.net.st.lock().unwrap_or_else(|e| e.into_inner()).log.len();
+                let cmd_start = self.epoch_ms + virtual_ms();
                 let r = ld.call("registertower", json!([format!("{}@tower{}:9814", id, t)]), 120).await;
                 if killed.load(Ordering::SeqCst) {
                     // killed inside the command: the registration took effect iff the tower's row is (newly) in the database
@@ -1613,8 +1617,20 @@ impl<'a> Session<'a> {
                                 d.towers.get(&tid).cloned(),
                             )
                         };
+                        // (nor does a change made by a good renewal of the same tower that somebody else -- its retrier --
+                        // received while this command was waiting for its own answer)
+                        let cmd_end = self.epoch_ms + virtual_ms();
+                        let renewed_meanwhile = {
+                            let st = self.net.st.lock().unwrap_or_else(|e| e.into_inner());
+                            st.log.iter().any(|x| {
+                                x.tower == *t && x.endpoint == "register" && x.reply == Reply::Accept && x.delivered_ms > cmd_start && x.delivered_ms <= cmd_end
+                            })
+                        };
+                        if renewed_meanwhile {
+                            self.probe("good_renewal_during_bad_registration");
+                        }
                         let changed = match (&before, &after) {
-                            (Some(b), Some(a)) => {
+                            (Some(b), Some(a)) if !renewed_meanwhile => {
                                 let (rb, tb) = rows(b);
                                 let (ra, ta) = rows(a);
                                 rb != ra || tb.map(|x| x.0) != ta.map(|x| x.0)
